@@ -170,18 +170,27 @@ class CallMixin:
             selfn = closure_self
         nfr = Frame(fi, fi.module, captured, fr.chain + ((site, fi),), len(st.pc), selfn, fi.cls)
         cst = St(locals_, st.heap, st.cur, st.pc)
-        if isinstance(fnode, ast.Lambda):
-            v = self.eval(fnode.body, nfr, cst)
-            st.heap, st.cur, st.pc = cst.heap, cst.cur, cst.pc
+        saved_fn = self._cur_fn
+        self._cur_fn = fi
+        try:
+            if isinstance(fnode, ast.Lambda):
+                v = self.eval(fnode.body, nfr, cst)
+                st.heap, st.cur, st.pc = cst.heap, cst.cur, cst.pc
+                return v
+            falls = self.exec_block(fnode.body, nfr, cst)
+            if falls:
+                nfr.exits.append((cst, self.const(None)))
+            if not nfr.exits:
+                raise PathEnd()
+            mst, v = self.merge_exits(nfr.exits, nfr.entry_pc_len)
+            if fi.qualname in self.watch_locals:
+                self.kept_locals.setdefault(fi.qualname, []).append((mst.locals, mst))
+            if fi.qualname in self.watch_calls:
+                self.call_log.append((fi, site, locals_, v, st.pc))
+            st.heap, st.cur, st.pc = mst.heap, mst.cur, mst.pc
             return v
-        falls = self.exec_block(fnode.body, nfr, cst)
-        if falls:
-            nfr.exits.append((cst, self.const(None)))
-        if not nfr.exits:
-            raise PathEnd()
-        mst, v = self.merge_exits(nfr.exits, nfr.entry_pc_len)
-        st.heap, st.cur, st.pc = mst.heap, mst.cur, mst.pc
-        return v
+        finally:
+            self._cur_fn = saved_fn
 
     def bind_args(self, fi: FuncInfo, pos, kw, st, fr, site, captured) -> Dict[str, Node]:
         a = fi.node.args
